@@ -182,7 +182,7 @@ class ProbedDest(campaign.HostileCase):
             if rng.random() < 0.5:
                 d.fs_op([7, 1, 2, 4, 1, 1, 9])          # n4/n1 exists
         if rng.random() < 0.4:
-            d.fs_op([7, 1, 1, 2, 3, 9, 9, 9])           # destination file exists already
+            d.fs_op([7, 1, 1, 2, 20] + [9] * 20)        # destination file exists already, longer than anything sent
         for _ in range(self.length):
             r = rng.random()
             if r < 0.68:
@@ -195,6 +195,8 @@ class ProbedDest(campaign.HostileCase):
                 t = d.h.transaction_id
                 if t is not None and rng.random() < 0.8:
                     d.cancel(t.source_id.value, t.seq_num.value)
+                elif t is not None and rng.random() < 0.5:
+                    d.cancel(t.source_id.value + 5, t.seq_num.value)      # another entity's transaction with the same number
                 else:
                     d.cancel(cfg.src_id, seq + 1)
             elif r < 0.91:
@@ -214,6 +216,49 @@ def c05_case(rng):
     cfg = campaign.rand_cfg(rng, ind=(True, True, True, True))
     return ProbedDest("dest", cfg, rng.getrandbits(32), rng.randint(8, 40), hostile=rng.choice([0.0, 0.05, 0.2]),
                       drain_p=rng.choice([1.0, 1.0, 0.8]))
+
+
+# ------------------------------------------------------------------ C06, two sending entities
+class TwoSendersCase:
+    """One receiver, two sending entities with different maximum packet lengths: a lossy transfer from the first (its
+    deferred NAK sequence is issued, then the user resets the handler), then a lossy transfer from the second, whose NAK
+    PDUs must be cut for ITS packet length."""
+
+    def __init__(self, cfg: Cfg, tag="c06T"):
+        self.cfg, self.tag = cfg, tag
+
+    def describe(self):
+        return {"two_senders": True, "max_packet": (self.cfg.max_packet, self.cfg.dst_alt_remote["max_packet"])}
+
+    def run(self):
+        cfg = self.cfg
+        w = World(cfg, self.tag)
+        try:
+            d = w.dst
+
+            def deliver(ints):
+                d.sm(codec.reparse(codec.build_pdu(ints, w.pm)))
+                while d.get() is not None:
+                    pass
+
+            def poll():
+                d.sm(None)
+                while d.get() is not None:
+                    pass
+            for src, seq, size, keep in ((cfg.src_id, 1, 12, (0, 2)), (cfg.dst_alt_remote["id"], 1, 40, tuple(range(0, 20, 2)))):
+                h = campaign._hdr(cfg, 0, seq)
+                h[4] = src
+                data = bytes((3 * i + 1) % 256 for i in range(size))
+                deliver(campaign.pdu_ints(codec.K_MD, h, [int(cfg.closure), cfg.cktype, size, 1, 1, 1, 1, 2, 0]))
+                for k in keep:
+                    deliver(campaign.pdu_ints(codec.K_FD, h, [2 * k, 2] + list(data[2 * k:2 * k + 2])))
+                deliver(campaign.pdu_ints(codec.K_EOF, h, [0] + list(c09.expected(cfg.cktype, data)) + [size, 0, 0, 0]))
+                poll(); poll()
+                d.reset()
+            self.sides = [("dest", d.ops, d.obs)]
+            return self
+        finally:
+            w.close()
 
 
 # ------------------------------------------------------------------ C06, large files
@@ -363,7 +408,14 @@ def oracle_c06(tr: Trace):
         if not (g["sos"] <= min([a for a, b in g["reqs"]] or [0]) and max([b for a, b in g["reqs"]] or [0]) <= g["eos"]):
             raise Failure(f"C06 NAK scope ({g['sos']},{g['eos']}) does not enclose its requests {g['reqs']} (op {st.i})")
         hdrl = 4 + 2 * g["idw"] + g["seqw"]
-        m = max_seg_reqs(remote, hdrl, g["crc"], g["large"])
+        # the limits are those configured for the entity this transaction comes from
+        remote_tx = next((r for r in tr.cfg["remotes"] if r["id"] == g["src"]), remote)
+        m = max_seg_reqs(remote_tx, hdrl, g["crc"], g["large"])
+        if remote_tx is not remote:
+            if m is not None and m >= 1 and f["file_size_eof"] >= 0 and g["eos"] == f["file_size_eof"] and plen > remote_tx["max_packet"]:
+                raise Failure(f"C06 NAK PDU of {plen} bytes ({len(g['reqs'])} requests) exceeds the max_packet_len "
+                              f"{remote_tx['max_packet']} configured for entity {g['src']} (op {st.i})")
+            return
         deferred_nak = f["deferred_active"] and f["file_size_eof"] >= 0 and g["eos"] == f["file_size_eof"] and g["sos"] == 0 \
             and f["proc_timer_start"] == now
         if deferred_nak and m is not None and m >= 1 and plen > remote["max_packet"]:
